@@ -1,7 +1,7 @@
 (* C19 -- Sample statistics and burn-in/thinning are exact functions of the stored chain.
    Property theorems only: each is closed by `exact <lemma>` and followed by Print Assumptions. *)
 From CV Require Import Base.Tac Base.Cmp Model.C19_Stats Proofs.C19_Stats Model.C19_Rhat Model.C19_History Proofs.C19_History
-  Proofs.C19_Percentile Proofs.C19_Rhat Proofs.C19_BurnthinZ.
+  Proofs.C19_Percentile Proofs.C19_Rhat Proofs.C19_BurnthinZ Proofs.C19_Scale.
 From Coq Require Import Sorting.Permutation.
 From Coq Require Import QArith Sorting.Sorted.
 
@@ -87,7 +87,7 @@ Print Assumptions C19_names_to_chains.
 
 (* no sequence of operations changes, removes or reorders a stored object: the state recorded after
    ANY operation of ANY history still holds every initial object, chain and flags, at its place ... *)
-Theorem C19_history_chains_unchanged : forall (g : geom) (ops : list op) (st : list hobj) (k : nat) (v : oval)
+Theorem C19_history_chains_unchanged : forall (g : list geom) (ops : list op) (st : list hobj) (k : nat) (v : oval)
     (s : list hobj) (i : nat),
   nth_error (run g ops st) k = Some (v, s) -> (i < length st)%nat -> nth_error s i = nth_error st i.
 Proof. exact trace_object_unchanged. Qed.
@@ -95,7 +95,7 @@ Print Assumptions C19_history_chains_unchanged.
 
 (* ... and the same for objects built during the history (burnthin children, converted samples, members of a
    burn-thinned joint set): every later state extends every earlier one *)
-Theorem C19_history_states_monotone : forall (g : geom) (ops : list op) (st : list hobj) (k1 k2 : nat)
+Theorem C19_history_states_monotone : forall (g : list geom) (ops : list op) (st : list hobj) (k1 k2 : nat)
     (v1 v2 : oval) (s1 s2 : list hobj),
   (k1 <= k2)%nat -> nth_error (run g ops st) k1 = Some (v1, s1) -> nth_error (run g ops st) k2 = Some (v2, s2) ->
   exists ext, s2 = s1 ++ ext.
@@ -103,21 +103,21 @@ Proof. intros g ops st k1 k2 v1 v2 s1 s2. exact (run_states_monotone g ops st k1
 Print Assumptions C19_history_states_monotone.
 
 (* an operation changes the state only by appending the objects it returns *)
-Theorem C19_history_step_appends : forall (g : geom) (o : op) (st : list hobj),
+Theorem C19_history_step_appends : forall (g : list geom) (o : op) (st : list hobj),
   snd (step g o st) = st ++ created (fst (step g o st)).
 Proof. exact step_creates. Qed.
 Print Assumptions C19_history_step_appends.
 
 (* what an operation returns depends on the stored objects it reads only: not on the operations executed
    before it (for R-hat: given the answer of the geometry comparison, which is an input of ORhat) ... *)
-Theorem C19_history_value_independent : forall (g : geom) (ops : list op) (o : op) (st : list hobj),
+Theorem C19_history_value_independent : forall (g : list geom) (ops : list op) (o : op) (st : list hobj),
   (forall i, In i (op_targets o) -> (i < length st)%nat) ->
   fst (step g o (final g ops st)) = fst (step g o st).
 Proof. exact history_value_indep. Qed.
 Print Assumptions C19_history_value_independent.
 
 (* ... in any two states that agree on the objects it reads ... *)
-Theorem C19_history_value_local : forall (g : geom) (o : op) (st st' : list hobj),
+Theorem C19_history_value_local : forall (g : list geom) (o : op) (st st' : list hobj),
   (forall i, In i (op_targets o) -> nth_error st i = nth_error st' i) ->
   (exists args, lookup_all st (op_targets o) = Some args) ->
   fst (step g o st) = fst (step g o st').
@@ -132,8 +132,8 @@ Print Assumptions C19_history_stat_chain_only.
 
 (* after any history, burnthin(Nb,Nt) of an object returns draws Nb, Nb+Nt, ... of the chain as first stored,
    with the flags and geometry of the object *)
-Theorem C19_history_burnthin : forall (g : geom) (ops : list op) (st : list hobj) (i nb nt : nat) (x x' : hobj),
-  nth_error st i = Some x ->
+Theorem C19_history_burnthin : forall (g : list geom) (ops : list op) (st : list hobj) (i nb nt : nat) (x x' : hobj),
+  nth_error st i = Some x -> (s_geom x < length g)%nat ->
   fst (step g (OBurnthin i nb nt) (final g ops st)) = VObj x' ->
   (forall k d, nth k (s_chain x') d = nth (nb + k * nt) (s_chain x) d) /\
   length (s_chain x') = ((length (s_chain x) - nb + nt - 1) / nt)%nat /\
@@ -142,9 +142,9 @@ Proof. exact history_burnthin_exact. Qed.
 Print Assumptions C19_history_burnthin.
 
 (* after any history, a joint burnthin burn-thins every member as first stored *)
-Theorem C19_history_joint : forall (g : geom) (ops : list op) (st : list hobj) (ms : list nat) (nb nt : nat)
+Theorem C19_history_joint : forall (g : list geom) (ops : list op) (st : list hobj) (ms : list nat) (nb nt : nat)
     (xs rs : list hobj),
-  lookup_all st ms = Some xs ->
+  lookup_all st ms = Some xs -> Forall (fun x => (s_geom x < length g)%nat) xs ->
   fst (step g (OJoint ms nb nt) (final g ops st)) = VObjs rs ->
   Forall2 (fun x r => obj_burnthin nb nt x = Some r) xs rs.
 Proof. exact history_joint_exact. Qed.
@@ -244,6 +244,22 @@ Theorem C19_ci_refusal : forall (l : list Z) (cn : Z) (cd : positive),
 Proof. exact ci_opt_defined. Qed.
 Print Assumptions C19_ci_refusal.
 
+(* statistics commute with a positive rescaling of the chain (chains of dyadic values are run as integer chains
+   2^k * values; the observed statistics are multiplied by 2^k, the variance by 4^k) *)
+Theorem C19_statistics_rescale : forall (c : Z) (l : list Z) (pn cn : Z) (pd cd : positive), l <> [] -> (0 < c)%Z ->
+  mean (scale c l) == inject_Z c * mean l /\ variance (scale c l) == inject_Z (c * c) * variance l /\
+  isort (scale c l) = scale c (isort l) /\
+  percentile (scale c l) pn pd == inject_Z c * percentile l pn pd /\
+  median (scale c l) == inject_Z c * median l /\
+  ci_lo (scale c l) cn cd == inject_Z c * ci_lo l cn cd /\ ci_hi (scale c l) cn cd == inject_Z c * ci_hi l cn cd /\
+  ci_width (scale c l) cn cd == inject_Z c * ci_width l cn cd.
+Proof.
+  intros c l pn cn pd cd Hl Hc. destruct (median_ci_scale c l cn cd Hc) as [M [L [U W]]].
+  repeat split; [exact (mean_scale c l Hl) | exact (variance_scale c l Hl) | exact (isort_scale c l Hc)
+                | exact (percentile_scale c l pn pd Hc) | exact M | exact L | exact U | exact W].
+Qed.
+Print Assumptions C19_statistics_rescale.
+
 (* the integer-sum form of the variance used for chains with thousands of draws is the variance *)
 Theorem C19_variance_fast : forall l : list Z, l <> [] -> variance_fast l == variance l.
 Proof. exact variance_fast_eq. Qed.
@@ -263,7 +279,7 @@ Print Assumptions C19_rhat_handover_exact.
 (* FINDING: the code as it stands also accepts a chain with ONE draw and hands arviz that draw repeated *)
 Import String.StringSyntax. Local Open Scope string_scope.
 Theorem C19_rhat_one_draw_broadcast_refuted :
-  exists g x y d sq, g_rhat_bcast g = true /\ rhat_value g x [y] true RRank = VRhat d sq /\
+  exists g x y d sq, g_rhat_bcast g = true /\ rhat_value g x [y] true (RRank []) = VRhat d sq /\
     length (s_chain y) <> length (s_chain x) /\ d = [("v", [[1; 2; 3; 4]; [7; 7; 7; 7]])]%Z.
 Proof. exact rhat_one_draw_broadcast_refuted. Qed.
 Print Assumptions C19_rhat_one_draw_broadcast_refuted.
@@ -329,10 +345,10 @@ Proof. vm_compute. repeat split; reflexivity. Qed.
 (* non-vacuity of the history theorems: a concrete history (median, burnthin, median of the child, median again) *)
 Example C19_history_example :
   let st := [mkS [[5]; [1]; [4]; [2]; [3]]%Z true true 0%nat] in
-  map fst (run (mkG [] 1 0 false false false) [OMedian 0; OBurnthin 0 1 2; OMedian 1; OMedian 0] st) =
+  map fst (run [mkG [] 1 0 false false false] [OMedian 0; OBurnthin 0 1 2; OMedian 1; OMedian 0] st) =
     [VStat [median [5; 1; 4; 2; 3]%Z]; VObj (mkS [[1]; [2]]%Z true true 0%nat); VStat [median [1; 2]%Z];
      VStat [median [5; 1; 4; 2; 3]%Z]] /\
-  final (mkG [] 1 0 false false false) [OMedian 0; OBurnthin 0 1 2; OMedian 1; OMedian 0] st =
+  final [mkG [] 1 0 false false false] [OMedian 0; OBurnthin 0 1 2; OMedian 1; OMedian 0] st =
     st ++ [mkS [[1]; [2]]%Z true true 0%nat].
 Proof. split; reflexivity. Qed.
 
